@@ -2073,6 +2073,29 @@ impl<'a> FnTr<'a> {
                     return Ok((format!("({} {} {})", a, if is_and { "&&" } else { "||" }, b), Ty::Bool));
                 }
                 let n = self.fresh();
+                // builder R: the right operand may update variables in scope (a call with `&mut` arguments that is
+                // only evaluated when the left operand does not decide): they leave the branch with the value
+                let mut written: Vec<String> = vec![];
+                for (pat, _) in &st2 {
+                    for w in pat.split(|c: char| !(c.is_alphanumeric() || c == '_' || c == '«' || c == '»')) {
+                        let w = w.trim_matches(|c| c == '«' || c == '»');
+                        if !w.is_empty() && env.contains_key(w) && !written.contains(&w.to_string()) {
+                            written.push(w.to_string());
+                        }
+                    }
+                }
+                if !written.is_empty() {
+                    let tup = |v: &str| format!("({}, {})", v, written.iter().map(|w| lean_ident(w)).collect::<Vec<_>>().join(", "));
+                    let rhs_seq = Seq { stmts: st2, tail: Tail::Val(tup(&b)) };
+                    let const_seq = Seq { stmts: vec![], tail: Tail::Val(tup(if is_and { "false" } else { "true" })) };
+                    let tail = if is_and {
+                        Tail::If(a, Box::new(rhs_seq), Box::new(const_seq))
+                    } else {
+                        Tail::If(a, Box::new(const_seq), Box::new(rhs_seq))
+                    };
+                    st.push((tup(&n), Rhs::Br(Box::new(tail))));
+                    return Ok((n, Ty::Bool));
+                }
                 let rhs_seq = Seq { stmts: st2, tail: Tail::Val(b) };
                 let const_seq = Seq { stmts: vec![], tail: Tail::Val(if is_and { "false".into() } else { "true".into() }) };
                 let tail = if is_and {
